@@ -917,6 +917,15 @@ class Evaluator:
         f = self.ctx.uf(name, SORTS[a.kind](), SORTS[ok]())
         return SV(ok, a.null, f(a.val))
 
+    def x_Replace(self, e, sc):
+        a, b = self.expr(e.this, sc), self.expr(e.expression, sc)
+        c = self.expr(e.args["replacement"], sc) if e.args.get("replacement") is not None else lit("")
+        if "null" in (a.kind, b.kind, c.kind):
+            return NULL("str")
+        a, b, c = self.to_str(a), self.to_str(b), self.to_str(c)
+        f = self.ctx.uf("replace", z3.StringSort(), z3.StringSort(), z3.StringSort(), z3.StringSort())
+        return SV("str", z3.Or(a.null, b.null, c.null), f(a.val, b.val, c.val))
+
     def x_Upper(self, e, sc):
         return self._uf1("upper", self.expr(e.this, sc), "str", "str")
 
